@@ -320,6 +320,10 @@ func (e *Engine) cmdCheck(prop, tier, evid, known, replayDir string, replay bool
 			}
 		}
 	}
+	if e.usesCtorTable {
+		// some function of this check calls a record constructor read from TypeToRR and relies on what the table holds
+		all = append(all, e.constructorTableObligations()...)
+	}
 	all = append(all, e.wirefmtObligations(prop)...)
 	all = append(all, bindFailures...)
 	// lemmas: those tagged with the property and those cited by the functions under contract
@@ -472,6 +476,13 @@ func (e *Engine) cmdCheck(prop, tier, evid, known, replayDir string, replay bool
 			if ob.Strategy == "split" && e.hints[baseName(ob.Name)] != "split" {
 				e.hints[baseName(ob.Name)] = "split"
 				changed = true
+			}
+			// an obligation that the plain encoding did not prove within its first budget: remember what did
+			if ob.Strategy != "split" && ob.Status == "proved" && ob.Time >= 3 && strings.Contains(ob.Solver, "+") && !strings.Contains(ob.Solver, " ") {
+				if h := "enc:" + ob.Solver; e.hints[baseName(ob.Name)] != h && e.hints[baseName(ob.Name)] != "split" {
+					e.hints[baseName(ob.Name)] = h
+					changed = true
+				}
 			}
 		}
 		if changed {
